@@ -129,6 +129,11 @@ def units_for(tier: str) -> List[Any]:
                   (('gate', 'ok'), ('done', 'exc')), (('done', 'ok'), ('child', 'ok'))):
         for how in ('return', 'call'):
             units.append(((items, how, False), None))
+    # one future / one child handed over under two keys
+    for items in ((('gate', 'ok'), ('same', 'ok')), (('child', 'ok'), ('same', 'ok')), (('gate', 'ok'), ('same', 'ok'), ('gate', 'ok')),
+                  (('gate', 'exc'), ('same', 'exc'))):
+        for how in ('return', 'call', 'both'):
+            units.append(((items, how, False), None))
     # a plain future that gets cancelled (alone, before and after another item)
     for items in ((('gate', 'cancel'),), (('gate', 'cancel'), ('gate', 'ok')), (('child', 'ok'), ('gate', 'cancel')),
                   (('done', 'cancel'),), (('done', 'cancel'), ('gate', 'ok'))):
